@@ -1010,7 +1010,7 @@ class Constraints:
     @classmethod
     def lax_ge(cls, value, ge):
         if value < ge:
-            return ge
+            return cls._bound_as(value, ge)
         return value
 
     @classmethod
@@ -1028,8 +1028,21 @@ class Constraints:
     @classmethod
     def lax_le(cls, value, le):
         if value > le:
-            return le
+            return cls._bound_as(value, le)
         return value
+
+    @classmethod
+    def _bound_as(cls, value, bound):
+        # a bound of a tolerated other number type (like int 0 for a Decimal or float value)
+        # is handed back in the type of the value, so that the output still has the declared type
+        if type(bound) is not type(value):
+            try:
+                converted = type(value)(bound)
+            except Exception:   # noqa
+                return bound
+            if converted == bound:
+                return converted
+        return bound
 
     @classmethod
     def length(cls, value, lg):
